@@ -12,6 +12,7 @@ import (
 	"reduction.dev/reduction/proto/jobpb"
 	"reduction.dev/reduction/proto/snapshotpb"
 	"reduction.dev/reduction/storage/locations"
+	"reduction.dev/reduction/util/verifhook"
 
 	"google.golang.org/protobuf/proto"
 )
@@ -223,6 +224,7 @@ func (s *Store) finishSnapshotAsync(snap *jobSnapshot) (uri string, err error) {
 		// Notify subscribers of new list of checkpoints to retain (just the completed one)
 		if s.retainedCheckpointsUpdated != nil {
 			go func() {
+				verifhook.At("snapshots.notify", snap.id)
 				s.retainedCheckpointsUpdated <- []uint64{snap.id}
 			}()
 		}
